@@ -21,7 +21,7 @@ use std::time::Duration;
 pub const META: PropMeta = PropMeta {
     id: "C20",
     level: "exploration",
-    rule: "cases: (a) random (id,generation,sub) triples, pairs of triples and raw usize keys checked for round trip, injectivity, field isolation, reserved key, bump/same_source laws; (b) boundary-id planes over all generations x sub-ids (quick: every generation x sub-ids at stride 61; thorough: every pair), distinct by construction; (c) token factories asked for n tokens; (d) real loops whose slot is reused g times, key compared with the kernel epoll table. non-trivial: generation >= 256 or sub-id >= 256 or id >= 2^16, a factory run of >= 255 tokens, or a loop case with >= 2 reuses or >= 2 sub-sources. distinct: by fingerprint of the case (planes: by construction)",
+    rule: "cases: (a) random (id,generation,sub) triples, pairs of triples and raw usize keys checked for round trip, injectivity, field isolation, reserved key, bump/same_source laws; (b) boundary-id planes over all generations x sub-ids (quick: every generation x sub-ids at stride 61; thorough: every pair), distinct by construction; (c) token factories asked for n tokens; (d) real loops whose slot is reused g times, key compared with the kernel epoll table; (e) composites mixing calloop's Generic children with token-drawing children in generated order, inserted and re-registered 0..3 times: every live sub-source holds its own key of the source's (slot, generation), pairwise distinct (kernel table for the Generic children). non-trivial: generation >= 256 or sub-id >= 256 or id >= 2^16, a factory run of >= 255 tokens, or a loop case with >= 2 reuses or >= 2 sub-sources. distinct: by fingerprint of the case (planes: by construction)",
     assumptions: &[
         "verif::pack/unpack/bump_version/same_source/token_factory are thin wrappers over TokenInner conversions (hook commit)",
         "/proc/self/fdinfo reports the epoll data field as registered",
@@ -48,6 +48,13 @@ pub enum Case {
         pre_slots: u8,
         reuses: u32,
         subs: u8,
+    },
+    /// a composite of calloop's own sub-sources in the given order (true = `Generic` over an eventfd, false = a child
+    /// that just draws its token from the factory, like a Timer or a freshly set TransientSource child), inserted,
+    /// then re-registered `updates` times: every live sub-source must hold its own key of the source's (slot, generation)
+    Mixed {
+        layout: Vec<bool>,
+        updates: u8,
     },
 }
 
@@ -105,6 +112,10 @@ fn factory_case() -> impl Strategy<Value = Case> {
 fn loop_case() -> impl Strategy<Value = Case> {
     (0u8..4, prop_oneof![4 => 0u32..6, 1 => proptest::sample::select(vec![255u32, 256, 257])], 1u8..5)
         .prop_map(|(pre_slots, reuses, subs)| Case::Loop { pre_slots, reuses, subs })
+}
+
+fn mixed_case() -> impl Strategy<Value = Case> {
+    (proptest::collection::vec(any::<bool>(), 1..=6), 0u8..4).prop_map(|(layout, updates)| Case::Mixed { layout, updates })
 }
 
 fn v(rule: &str, detail: String) -> Option<Violation> {
@@ -292,6 +303,116 @@ impl EventSource for KeyProbe {
     }
 }
 
+/// Composite of real `Generic` children and token-drawing children, registered in order through the shared factory.
+struct MixedProbe {
+    gens: Vec<Option<calloop::generic::Generic<kernel::OwnedRaw>>>,
+    /// per child: the key drawn by a drawing child at its last (re)registration
+    drawn: Rc<RefCell<Vec<Option<usize>>>>,
+}
+
+impl EventSource for MixedProbe {
+    type Event = ();
+    type Metadata = ();
+    type Ret = ();
+    type Error = std::io::Error;
+    fn process_events<F>(&mut self, _: Readiness, _: Token, _cb: F) -> Result<PostAction, Self::Error>
+    where
+        F: FnMut((), &mut ()),
+    {
+        Ok(PostAction::Continue)
+    }
+    fn register(&mut self, poll: &mut Poll, tf: &mut TokenFactory) -> calloop::Result<()> {
+        for (i, g) in self.gens.iter_mut().enumerate() {
+            match g {
+                Some(g) => g.register(poll, tf)?,
+                None => self.drawn.borrow_mut()[i] = Some(tf.token().verif_key()),
+            }
+        }
+        Ok(())
+    }
+    fn reregister(&mut self, poll: &mut Poll, tf: &mut TokenFactory) -> calloop::Result<()> {
+        for (i, g) in self.gens.iter_mut().enumerate() {
+            match g {
+                Some(g) => g.reregister(poll, tf)?,
+                None => self.drawn.borrow_mut()[i] = Some(tf.token().verif_key()),
+            }
+        }
+        Ok(())
+    }
+    fn unregister(&mut self, poll: &mut Poll) -> calloop::Result<()> {
+        for g in self.gens.iter_mut().flatten() {
+            g.unregister(poll)?;
+        }
+        Ok(())
+    }
+}
+
+fn run_mixed(layout: &[bool], updates: u8) -> Option<Violation> {
+    let layout: Vec<bool> = layout.iter().copied().take(8).collect();
+    if layout.is_empty() {
+        return None;
+    }
+    let el: EventLoop<()> = EventLoop::try_new().expect("event loop");
+    let epfd = el.as_raw_fd();
+    let h = el.handle();
+    let mut raw: Vec<Option<RawFd>> = Vec::new();
+    let mut gens = Vec::new();
+    for is_gen in &layout {
+        if *is_gen {
+            let fd = kernel::eventfd_nonblock();
+            raw.push(Some(fd));
+            gens.push(Some(calloop::generic::Generic::new(kernel::OwnedRaw(fd), Interest::READ, Mode::Level)));
+        } else {
+            raw.push(None);
+            gens.push(None);
+        }
+    }
+    let drawn = Rc::new(RefCell::new(vec![None; layout.len()]));
+    let tok = h.insert_source(MixedProbe { gens, drawn: drawn.clone() }, |_, _, _| {}).expect("insert MixedProbe");
+    let (slot, ver, _) = cv::unpack(tok.verif_key());
+    for round in 0..=updates.min(4) {
+        if round > 0 {
+            if let Err(e) = h.update(&tok) {
+                return v("C20.kernel", format!("update() of the composite failed: {e}"));
+            }
+        }
+        let table = kernel::epoll_table(epfd);
+        let mut keys: Vec<usize> = Vec::new();
+        for (i, fd) in raw.iter().enumerate() {
+            let k = match fd {
+                Some(fd) => match table.iter().find(|e| e.tfd == *fd) {
+                    Some(e) => e.data as usize,
+                    None => return v("C20.kernel", format!("generic child {i} (fd {fd}) is not in the kernel table after {round} update(s)")),
+                },
+                None => match drawn.borrow()[i] {
+                    Some(k) => k,
+                    None => return v("C20.factory", format!("drawing child {i} was not (re)registered in round {round}")),
+                },
+            };
+            let (s2, v2, _) = cv::unpack(k);
+            if (s2, v2) != (slot, ver) {
+                return v("C20.kernel", format!("child {i} holds key {:?} after {round} update(s), the source is ({slot},{ver})", cv::unpack(k)));
+            }
+            keys.push(k);
+        }
+        let mut sorted = keys.clone();
+        sorted.sort_unstable();
+        sorted.dedup();
+        if sorted.len() != keys.len() {
+            return v(
+                "C20.inject",
+                format!(
+                    "after {round} update(s) two live sub-sources of one source hold the same poller key: layout {:?} (true = Generic), keys {:?}",
+                    layout,
+                    keys.iter().map(|k| cv::unpack(*k)).collect::<Vec<_>>()
+                ),
+            );
+        }
+    }
+    h.remove(tok);
+    None
+}
+
 fn run_loop(pre_slots: u8, reuses: u32, subs: u8) -> Option<Violation> {
     let mut el: EventLoop<()> = EventLoop::try_new().expect("event loop");
     let epfd = el.as_raw_fd();
@@ -398,6 +519,11 @@ pub fn run_case(case: &Case) -> CaseOutcome {
             info.nontrivial = *reuses >= 2 || *subs >= 2;
             run_loop(*pre_slots, *reuses, *subs)
         }
+        Case::Mixed { layout, updates } => {
+            info.classes.push("mixed_composite");
+            info.nontrivial = layout.len() >= 2 && *updates >= 1 && layout.iter().any(|g| *g) && layout.iter().any(|g| !*g);
+            run_mixed(layout, *updates)
+        }
     };
     (info, viol)
 }
@@ -469,7 +595,7 @@ fn plane(ctx: &CheckCtx, id: u32, stride: usize, workers: usize) -> Option<Found
 }
 
 pub fn check(ctx: &CheckCtx) -> Option<Found> {
-    for sub in ["triple", "factory", "loop"] {
+    for sub in ["triple", "factory", "loop", "mixed"] {
         if let Some(f) = ctx.run_replays::<Case, _>(sub, run_case) {
             return Some(f);
         }
@@ -505,6 +631,9 @@ pub fn check(ctx: &CheckCtx) -> Option<Found> {
         }
     }
     if let Some(f) = ctx.search("loop", loop_case(), t.pick(600, 8_000), 8, None, run_case) {
+        return Some(f);
+    }
+    if let Some(f) = ctx.search("mixed", mixed_case(), t.pick(2_000, 40_000), 8, None, run_case) {
         return Some(f);
     }
     let big: &[u32] = match t {
@@ -581,11 +710,19 @@ fn loop_from_bytes(data: &[u8]) -> Case {
     Case::Loop { pre_slots, reuses, subs }
 }
 
+fn mixed_from_bytes(data: &[u8]) -> Case {
+    let mut d = crate::hist::fuzzgen::Dec::new(data);
+    let n = d.len(1, 6);
+    let layout = (0..n).map(|_| d.bool()).collect();
+    Case::Mixed { layout, updates: d.u8r(0, 3) }
+}
+
 pub fn fuzz_subs(_ctx: &CheckCtx) -> Vec<crate::fuzz::FuzzSub> {
     vec![
         crate::fuzz::sub("triple", triple_from_bytes, run_case),
         crate::fuzz::sub("factory", factory_from_bytes, run_case),
         crate::fuzz::sub("loop", loop_from_bytes, run_case),
+        crate::fuzz::sub("mixed", mixed_from_bytes, run_case),
     ]
 }
 
